@@ -50,7 +50,7 @@ fn serr(e: &s2n_quic::stream::Error) -> serde_json::Value {
 
 /// writes `total` position-determined bytes in chunks, optionally resets, finishes and waits for the close
 #[allow(clippy::too_many_arguments)]
-async fn writer(sh: Shared, ep: &'static str, mut s: SendStream, total: u64, chunk: usize, finish: bool, reset_at: Option<u64>, reset_delay_us: u64, reset_after_finish_us: u64, mode: String) {
+async fn writer(sh: Shared, ep: &'static str, mut s: SendStream, total: u64, chunk: usize, finish: bool, reset_at: Option<u64>, reset_delay_us: u64, reset_after_finish_us: u64, mode: String, write_delay_us: u64) {
     let id = s.id();
     let mut off = 0u64;
     let chunk = chunk.max(1);
@@ -67,6 +67,9 @@ async fn writer(sh: Shared, ep: &'static str, mut s: SendStream, total: u64, chu
         }
         if off >= total {
             break;
+        }
+        if write_delay_us > 0 && off > 0 {
+            io::time::delay(Duration::from_micros(write_delay_us)).await;
         }
         let mut n = chunk.min((total - off) as usize);
         if let Some(r) = reset_at {
@@ -286,7 +289,7 @@ pub fn drive(sh: Shared, ep: &'static str, conn: Connection) {
                             PeerStream::Bidirectional(s) => {
                                 let (r, w) = s.split();
                                 role(&sh, reader(sh.clone(), ep, r, sp.read_delay_us, sp.stop_at, sp.read_start_delay_us, sp.read_mode.clone()));
-                                role(&sh, writer(sh.clone(), ep, w, sp.reply, sp.reply_chunk, true, None, 0, 0, sp.write_mode.clone()));
+                                role(&sh, writer(sh.clone(), ep, w, sp.reply, sp.reply_chunk, true, None, 0, 0, sp.write_mode.clone(), 0));
                             }
                             PeerStream::Receive(r) => role(&sh, reader(sh.clone(), ep, r, sp.read_delay_us, sp.stop_at, sp.read_start_delay_us, sp.read_mode.clone())),
                         }
@@ -320,7 +323,7 @@ pub fn drive(sh: Shared, ep: &'static str, conn: Connection) {
                     Some(Ok(s)) => {
                         emit(json!({"ev": "app_open", "ep": ep, "id": s.id(), "bidi": true}));
                         let (r, w) = s.split();
-                        role(&sh, writer(sh.clone(), ep, w, sp.send, sp.chunk, sp.finish, sp.reset_at, sp.reset_delay_us, sp.reset_after_finish_us, sp.write_mode.clone()));
+                        role(&sh, writer(sh.clone(), ep, w, sp.send, sp.chunk, sp.finish, sp.reset_at, sp.reset_delay_us, sp.reset_after_finish_us, sp.write_mode.clone(), sp.write_delay_us));
                         role(&sh, reader(sh.clone(), ep, r, sp.read_delay_us, None, 0, sp.read_mode.clone()));
                     }
                     Some(Err(e)) => {
@@ -334,7 +337,7 @@ pub fn drive(sh: Shared, ep: &'static str, conn: Connection) {
                 match with_deadline(&sh, "open", ep, -1, h2.open_send_stream()).await {
                     Some(Ok(w)) => {
                         emit(json!({"ev": "app_open", "ep": ep, "id": w.id(), "bidi": false}));
-                        role(&sh, writer(sh.clone(), ep, w, sp.send, sp.chunk, sp.finish, sp.reset_at, sp.reset_delay_us, sp.reset_after_finish_us, sp.write_mode.clone()));
+                        role(&sh, writer(sh.clone(), ep, w, sp.send, sp.chunk, sp.finish, sp.reset_at, sp.reset_delay_us, sp.reset_after_finish_us, sp.write_mode.clone(), sp.write_delay_us));
                     }
                     Some(Err(e)) => {
                         emit(json!({"ev": "app_open_err", "ep": ep, "err": crate::rec::error_json(&e)}));
